@@ -1,10 +1,113 @@
-//! C07 — not built yet.
+//! C07 Validation terminates on deep or cyclic CA hierarchies.
+
+use std::sync::mpsc;
+use std::time::Duration;
+
+use proptest::prelude::*;
 
 use crate::core::*;
+use crate::erpki::*;
+use crate::erun::*;
+use crate::escen::*;
 
-pub const IMPLEMENTED: bool = false;
+fn scenario(words: &[u16]) -> Scenario {
+    let mut d = D::new(words);
+    let mut cfg = Cfg::default();
+    cfg.max_depth = d.pick(&[2usize, 0, 1, 5]);
+    cfg.threads = d.pick(&[2usize, 1, 8]);
+    let p = Profile { max_cas: 12, max_tals: 1, max_objs: 2, versions: 1, fault_16: 0, obj_faults: false, cert_faults: false, pp_faults: false, vary_cfg: false, modules: 2 };
+    // a chain crossing the depth bound, with optional side branches and loop certificates
+    let chain_len = (cfg.max_depth as i64 + d.pick(&[1i64, 0, 2, -1])).max(0) as usize + 1;
+    let mut cas: Vec<Ca> = Vec::new();
+    for i in 0..chain_len.min(9) {
+        let versions = vec![decode_version(&mut d, &p, 0)];
+        cas.push(Ca { parent: if i == 0 { None } else { Some(i - 1) }, key: i, module: d.below(2), not_after: 86400 * 365, cert_fault: None, versions, extra_res: None });
+    }
+    // extra children: plain siblings or cycle / loop certificates
+    let extra = d.below(5);
+    for _ in 0..extra {
+        let i = cas.len();
+        if i >= 14 {
+            break;
+        }
+        let parent = d.below(i);
+        let kind = d.below(4);
+        let up = 1 + d.below(3) as u8;
+        let cert_fault = match kind {
+            0 => None,
+            1 => Some(CertFault::LoopKey(up)),
+            _ => Some(CertFault::CycleTo(up)),
+        };
+        let versions = vec![decode_version(&mut d, &p, 0)];
+        cas.push(Ca { parent: Some(parent), key: i, module: d.below(2), not_after: 86400 * 365, cert_fault, versions, extra_res: None });
+        // cycles come in pairs so that a missing loop check multiplies work at every level
+        if matches!(cert_fault, Some(CertFault::CycleTo(_))) && cas.len() < 14 {
+            let j = cas.len();
+            let versions = vec![decode_version(&mut d, &p, 0)];
+            cas.push(Ca { parent: Some(parent), key: j, module: 0, not_after: 86400 * 365, cert_fault, versions, extra_res: None });
+        }
+    }
+    let steps = vec![Step { publish: vec![0; cas.len()], fail_modules: vec![], offline: false, stale: None }];
+    Scenario { cfg, cas, steps }
+}
 
-pub fn run(_ctx: &Ctx, _rep: &mut Report, _replay: Option<&serde_json::Value>) {
-    eprintln!("C07: check not implemented");
-    std::process::exit(2);
+fn classify(sc: &Scenario, info: &mut CaseInfo) {
+    let crossing = (0..sc.cas.len()).any(|i| depth(sc, i) > sc.cfg.max_depth);
+    let cycle = sc.cas.iter().any(|c| matches!(c.cert_fault, Some(CertFault::CycleTo(_)) | Some(CertFault::LoopKey(_))));
+    info.nontrivial = crossing || cycle;
+    if crossing {
+        info.class("chain_crosses_depth_bound");
+    }
+    if cycle {
+        info.class("cycle_or_repeated_key");
+    }
+    info.class(format!("max_depth_{}", sc.cfg.max_depth));
+}
+
+/// Runs the judge on a helper thread; returns None if it does not come back within `secs`.
+fn judge_with_watchdog(sc: &Scenario, secs: u64) -> Option<(Verdict, CaseInfo)> {
+    let (tx, rx) = mpsc::channel();
+    let sc2 = sc.clone();
+    std::thread::spawn(move || {
+        let mut info = CaseInfo::default();
+        let j = Judge { id: "C07", sound: true, complete: true, points: true, ..Default::default() };
+        let v = judge(&j, &sc2, &mut info, |_, _| None);
+        let _ = tx.send((v, info));
+    });
+    rx.recv_timeout(Duration::from_secs(secs)).ok()
+}
+
+fn prop(sc: &Scenario, info: &mut CaseInfo) -> Verdict {
+    classify(sc, info);
+    match judge_with_watchdog(sc, 60) {
+        Some((v, _)) => v,
+        None => {
+            // Did not return: run a clean control of the same size beside a second, longer attempt.
+            let mut control = sc.clone();
+            for c in control.cas.iter_mut() {
+                c.cert_fault = None;
+            }
+            control.cfg.max_depth = 32;
+            let control_ok = judge_with_watchdog(&control, 60).is_some();
+            if !control_ok {
+                return Verdict::Dropped("machine_overloaded_control_slow".into());
+            }
+            match judge_with_watchdog(sc, 240) {
+                Some((v, _)) => v,
+                None => Verdict::fail("C07/non-termination", "validation run did not return within 240 s while a clean control tree of the same size finished within 60 s".to_string()),
+            }
+        }
+    }
+}
+
+pub fn run(ctx: &Ctx, rep: &mut Report, replay: Option<&serde_json::Value>) {
+    rep.rule("E-rpki single-run trees: a CA chain of length max-ca-depth-1 .. +2 for max-ca-depth in {0,1,2,5}, up to 5 extra children that are plain CAs, certificates repeating the key of an ancestor 1-3 levels up, or true cycles (certificate for an ancestor's key whose SIA points at that ancestor's publication point; generated in pairs so a missing loop check multiplies work per level), 1/2/8 validation threads; oracle: the run returns (60 s watchdog, then a control run and a 240 s second attempt before non-termination is reported), payload and accepted/rejected point counts equal the model (CAs beyond the depth bound and looping certificates contribute nothing, everything else is processed); non-trivial = the tree crosses the depth bound or contains a repeated key; distinct by serialised scenario");
+    rep.assume("a time bound is part of this oracle (non-termination is what the property forbids); a slow control run drops the case instead of reporting");
+    ctx.shrink_iters.store(100, std::sync::atomic::Ordering::Relaxed);
+    if let Some(v) = replay {
+        let t: Tagged<Scenario> = serde_json::from_value(v.clone()).expect("replay");
+        run_case(ctx, rep, &t.sub, &t.case, prop);
+        return;
+    }
+    run_prop_par(ctx, rep, "chains", ctx.tier.pick(200, 4000), 8, || genome(200).prop_map(|w| scenario(&w)), prop);
 }
